@@ -278,10 +278,10 @@ func init() {
 	mc.Register(&mc.Check{
 		ID:    "C07",
 		Level: "model_checking",
-		Rule: "E2: breadth-first search over operation histories on names A B C starting from 4 initial values (nested list, dictionary of list, list of dictionary, object with a list property); operations: 令X = Y, 令X恒为Y, 令X恒为Y#1, 令X、Z恒为Y, 令X = 【Y，9】, X = 【Y，9】, X#“K” = 【K=Y】, 令X = Y之P, 令X = Y#1, 令X、Z = Y, X = Y, X之P = Y, X#1 = Y, X#“K” = Y, element / key / nested assignments, 后增 前增 左移 右移 移除 合并 at top and nested level, object methods and property writes; every successor is produced by re-running the whole history on a fresh real interpreter; all live names are observed structurally after every operation and compared with the reference (heap of trees, pointers only for objects); in every new state a probe battery mutates every container position reachable from every name and observes all names. States are merged on the reference state (values + object identity structure). Plus the literal-freshness programs: 5 literals (list, dictionary, nested list, a number, a list of a number) x 6 in-place changes x 9 contexts (bound in a method called twice, bound in a loop body, returned by a method and bound, returned and changed without being bound, one literal site executed three times with every value stored WITHOUT a copy - appended / passed to a method that appends it / returned by a method and appended - and one stored value changed after the loop or right after the first pass).",
+		Rule: "E2: breadth-first search over operation histories on names A B C starting from 4 initial values (nested list, dictionary of list, list of dictionary, object with a list property); operations: 令X = Y, 令X恒为Y, 令X恒为Y#1, 令X、Z恒为Y, 令X = 【Y，9】, X = 【Y，9】, X#“K” = 【K=Y】, 令X = Y之P, 令X = Y#1, 令X、Z = Y, X = Y, X之P = Y, X#1 = Y, X#“K” = Y, element / key / nested assignments, 后增 前增 左移 右移 移除 合并 at top and nested level, object methods and property writes; every successor is produced by re-running the whole history on a fresh real interpreter; all live names are observed structurally after every operation and compared with the reference (heap of trees, pointers only for objects); after every transition a probe battery mutates every container position reachable from every name and observes all names. States are merged on the reference state (values + object identity structure). Plus the literal-freshness programs: 5 literals (list, dictionary, nested list, a number, a list of a number) x 6 in-place changes x 9 contexts (bound in a method called twice, bound in a loop body, returned by a method and bound, returned and changed without being bound, one literal site executed three times with every value stored WITHOUT a copy - appended / passed to a method that appends it / returned by a method and appended - and one stored value changed after the loop or right after the first pass).",
 		Assumptions: []string{
 			"list/dictionary values passed as method arguments or bound by 得到 / loop variables are by-reference today and unspecified: method arguments are fresh scalars or literals only",
-			"merging on the reference state is sound because the probe battery (mutate through each name at each position, observe all) is run in every new state before later duplicates are absorbed",
+			"histories are merged on the reference state only for generating successors; the probe battery (mutate through each name at each position, observe all) runs after every transition, also one that reaches a reference state seen before",
 			"histories longer than the bound are not covered",
 		},
 		Budget: func(tier string) time.Duration {
